@@ -70,9 +70,12 @@ package sourcerunner
 
 // The sender goroutine of an operator: a timed-out batch is taken under its own token (a stale
 // token takes nothing), a full batch is the one handed over; both go to this operator.
+// (It hands them over itself, one after the other: a goroutine per batch would let a later batch
+// overtake an earlier one.)
 //@ func newBatchingOperator$0
 //@   property C04
 //@   nosafety
+//@   atcall go: false
 //@   atcall Flush: same(recv_, o.batcher) && arg0 == batchToken
 //@   atcall HandleEventBatch: same(recv_, o.op)
 
